@@ -731,7 +731,13 @@ def main():
                 fails = [x for x in obl if x.get("status") == "FAILURE"]
                 unw = [x for x in fails if "unwinding assertion" in obligation_name(x) or ".unwind." in str(x.get("property"))]
                 if unw and er.get("unwind_is_termination"):
-                    unw = []      # this entry's bound is the termination obligation: keep the failures as violations
+                    # this entry's bound is the termination obligation: a loop of the EXTRACTED code (source under the
+                    # repository) that runs past it is a violation; a loop of the library model or of the harness that
+                    # runs past it only means the bound is too small for the model (undecided)
+                    def in_repo(x):
+                        f = str((x.get("sourceLocation") or {}).get("file", ""))
+                        return f.startswith(REPO.rstrip("/") + "/")
+                    unw = [x for x in unw if not in_repo(x)]
                 if unw:
                     # a loop ran past the stated bound: the bounded stand-in does not decide this entry
                     fails = [x for x in fails if x not in unw]
